@@ -26,12 +26,12 @@ var rawFuncs = map[string]struct {
 	"fdiv": {"f_div", SFlt}, "flt": {"f_lt", SBool}, "feq": {"f_eq", SBool}, "isnan": {"f_isnan", SBool},
 	"tdiv": {"tdiv", SInt}, "tmod": {"tmod", SInt}, "in_i64": {"in_i64", SBool},
 	"s_base": {"s_base", SInt}, "s_off": {"s_off", SInt}, "s_len": {"s_len", SInt}, "s_cap": {"s_cap", SInt},
-	"arr2str": {"arr2str", SStr},
+	"arr2str":  {"arr2str", SStr},
 	"rv_valid": {"rv_valid", SBool}, "rv_val": {"rv_val", SVal}, "rv_iface": {"rv_iface", SBool}, "mk_rv": {"mk_rv", "RV"},
 	"runes2str": {"runes2str", SStr}, "str_runes": {"str_runes", "(Array Int Int)"},
 	"tmd": {"tmd", SStr}, "fsread": {"fsread", SStr},
 	"rv_deepnan": {"rv_deepnan", SBool},
-	"rvkind": {"rvkind", SInt}, "tconvertible": {"tconvertible", SBool},
+	"rvkind":     {"rvkind", SInt}, "tconvertible": {"tconvertible", SBool},
 }
 
 func (c *SpecCtx) args(es []ast.Expr) []TT {
